@@ -2,11 +2,146 @@ package drive
 
 func init() {
 	register(&Property{
+		ID:    "C24",
+		Units: []string{"fasthttp.ParseByteRange", "fasthttp.ParseUint", "fasthttp.parseUintBuf"},
+		Runs: []Run{
+			{Pkg: "fasthttp", Func: "vhC24ByteRange", Quick: map[string]int{"maxRange": 5}, Thorough: map[string]int{"maxRange": 7}},
+			{Pkg: "fasthttp", Func: "vhC24ByteRangeForms", Quick: map[string]int{"rangeDigits": 3}, Thorough: map[string]int{"rangeDigits": 5}},
+		},
+		Assume: []string{
+			"only the ParseByteRange clause of C24 (accepted range inside the content, accept-iff-satisfiable, values) is decided; the FS handler's 206/416/304/HEAD behaviour on real files is outside this check",
+			"range spec after 'bytes=' is an arbitrary byte string of length ≤ maxRange; content length is any non-negative int",
+		},
+	})
+	register(&Property{
+		ID:    "C26",
+		Units: []string{"fasthttp.normalizePath", "fasthttp.(*URI).SetPathBytes", "fasthttp.(*URI).Path", "fasthttp.decodeArgAppendNoPlus", "fasthttp.unhex"},
+		Runs: []Run{
+			{Pkg: "fasthttp", Func: "vhC26NormalizePath", Quick: map[string]int{"maxPath": 5}, Thorough: map[string]int{"maxPath": 7}},
+		},
+		Assume: []string{
+			"reference = RFC 3986 §5.2.4 remove_dot_segments over the percent-decoded, slash-collapsed path (harness/fasthttp/c26.go)",
+			"paths are arbitrary byte strings of length ≤ maxPath; filepath.Separator is '/' (Windows back-slash handling outside)",
+		},
+	})
+	register(&Property{
+		ID:    "C28",
+		Units: []string{"fasthttp.(*Args)", "fasthttp.decodeArg", "fasthttp.AppendQuotedArg", "fasthttp.setArg", "fasthttp.delAllArgs", "fasthttp.appendArg", "fasthttp.peekArg"},
+		Runs: []Run{
+			{Pkg: "fasthttp", Func: "vhC28Ops", Quick: map[string]int{"ops": 3, "keyLen": 1, "valLen": 1}, Thorough: map[string]int{"ops": 4, "keyLen": 1, "valLen": 1}},
+			{Pkg: "fasthttp", Func: "vhC28RoundTrip", Quick: map[string]int{"entries": 2, "keyLen": 1, "valLen": 1}, Thorough: map[string]int{"entries": 2, "keyLen": 2, "valLen": 2}},
+			{Pkg: "fasthttp", Func: "vhC28Quote", Quick: map[string]int{"len": 3}, Thorough: map[string]int{"len": 5}},
+		},
+		Assume: []string{"operation sequences start from the empty Args; keys/values are arbitrary byte strings up to the stated lengths"},
+	})
+	register(&Property{
+		ID:    "C29",
+		Units: []string{"fasthttp.(*ResponseHeader)", "fasthttp.(*RequestHeader)", "fasthttp.(*header)", "fasthttp.delAllArgs", "fasthttp.setArg", "fasthttp.appendArg", "fasthttp.normalizeHeaderKey", "fasthttp.peekAllArg", "fasthttp.removeNewLines"},
+		Runs: []Run{
+			{Pkg: "fasthttp", Func: "vhC29ResponseOps", Quick: map[string]int{"ops": 3}, Thorough: map[string]int{"ops": 4}},
+			{Pkg: "fasthttp", Func: "vhC29RequestOps", Quick: map[string]int{"ops": 3}, Thorough: map[string]int{"ops": 4}},
+		},
+		Assume: []string{
+			"operation alphabet Add/Set/Del over the ordinary names {X-A, x-a, X-B, x-C} (mixed case, normalisation on) with one-byte symbolic values ≠ CR/LF, observed through PeekAll/Peek/Len",
+			"special names (Content-Type, Host, Cookie, ...), disabled normalisation, CopyTo and the write→read-back clause are outside this check",
+		},
+	})
+	register(&Property{
 		ID:    "C30",
-		Units: []string{"fasthttp.ParseUint", "fasthttp.parseUintBuf", "fasthttp.AppendUint", "fasthttp.readHexInt", "fasthttp.writeHexInt", "fasthttp.parseContentLength"},
+		Units: []string{"fasthttp.ParseUint", "fasthttp.parseUintBuf", "fasthttp.AppendUint", "fasthttp.readHexInt", "fasthttp.writeHexInt", "fasthttp.parseContentLength", "strconv.AppendUint", "strconv.formatBits"},
 		Runs: []Run{
 			{Pkg: "fasthttp", Func: "vhC30ParseUintDigits", Quick: map[string]int{"maxDigits": 20}, Thorough: map[string]int{"maxDigits": 24}},
+			{Pkg: "fasthttp", Func: "vhC30ParseUintAny", Quick: map[string]int{"maxAny": 4}, Thorough: map[string]int{"maxAny": 6}},
+			{Pkg: "fasthttp", Func: "vhC30AppendParse", Quick: map[string]int{"appendBits": 14}, Thorough: map[string]int{"appendBits": 20}},
+			{Pkg: "fasthttp", Func: "vhC30HexRoundTrip"},
+			{Pkg: "fasthttp", Func: "vhC30HexLen"},
 		},
-		Assume: []string{"refDecFits (decimal-string comparison) is the specification of 'fits in int'"},
+		Assume: []string{
+			"refDecFits (decimal-string comparison) is the specification of 'fits in int'",
+			"64-bit int only (GOARCH=amd64); the 386 word size is outside this check",
+			"AppendUint∘ParseUint inverse is decided for n < 2^appendBits only (64-bit division by 10/100 in strconv.formatBits does not scale in the bit-blasting back end)",
+			"hex round trip covers every n in [0, 2^60): a chunk size is a slice length and cannot need more than maxHexIntChars digits",
+		},
+	})
+	register(&Property{
+		ID:    "C31",
+		Units: []string{"fasthttp.ParseIPv4", "fasthttp.parseIPv4Octet", "fasthttp.AppendIPv4", "fasthttp.AppendUint"},
+		Runs: []Run{
+			{Pkg: "fasthttp", Func: "vhC31ParseIPv4", Quick: map[string]int{"maxIP": 8}, Thorough: map[string]int{"maxIP": 10}},
+			{Pkg: "fasthttp", Func: "vhC31IPv4RoundTrip", Quick: map[string]int{"allOctets": 0}, PathCap: 400000},
+		},
+		Assume: []string{
+			"only the IPv4 clauses of C31 are decided; the RFC 1123 date fast path vs time.Parse and the bracketed-IPv6 host vs net/netip clauses are outside this check (time.Parse / netip.ParseAddr are not interpreted)",
+			"ParseIPv4 inputs are arbitrary byte strings of length ≤ maxIP (a full 15-byte dotted quad is outside the quick bound)",
+		},
+	})
+	register(&Property{
+		ID:    "C32",
+		Units: []string{"fasthttp.ishex", "fasthttp.unhex", "fasthttp.normalizeHeaderKey", "fasthttp.AppendHTMLEscape", "fasthttp.AppendQuotedArg", "fasthttp.appendQuotedPath", "net/textproto.CanonicalMIMEHeaderKey", "fasthttp.isValidHeaderKey", "fasthttp.lowercaseBytes"},
+		Runs: []Run{
+			{Pkg: "fasthttp", Func: "vhC32Tables"},
+			{Pkg: "fasthttp", Func: "vhC32QuoteBytes"},
+			{Pkg: "fasthttp", Func: "vhC32Canonical"},
+			{Pkg: "fasthttp", Func: "vhC32HTMLEscape"},
+		},
+		Assume: []string{"table predicates are written from RFC 3986 §2.3 / RFC 9110 §5.6.2, §5.5 (harness/fasthttp/c32.go), not from bytesconv_table_gen.go"},
+	})
+}
+
+func init() {
+	register(&Property{
+		ID:    "C01",
+		Units: []string{"fasthttp.(*RequestHeader).parse", "fasthttp.(*RequestHeader).Read", "fasthttp.(*RequestHeader).tryRead", "fasthttp.(*headerScanner)", "fasthttp.readRawHeaders", "fasthttp.parseContentLength", "fasthttp.nextLine", "bufio.(*Reader)"},
+		Runs: []Run{
+			{Pkg: "fasthttp", Func: "vhC01HeadFraming", Quick: map[string]int{"fields": 3, "clDigits": 2}, Thorough: map[string]int{"fields": 4, "clDigits": 3}},
+		},
+		Assume: []string{
+			"head-level obligation only: input family = POST head (HTTP/1.1 or 1.0) with up to `fields` framing fields drawn from {Content-Length: <symbolic bytes>, Transfer-Encoding: chunked | identity | gzip, chunked | chunked, gzip, Connection: keep-alive}",
+			"composition assumed, not encoded: Server.serveConnCounted closes the connection when RequestHeader.Read fails or Request.Header.ConnectionClose() is true (server.go); body/chunk decoding, pipelining through the serve loop and the server option matrix are outside this check",
+		},
+	})
+	register(&Property{
+		ID:    "C05",
+		Units: []string{"fasthttp.(*ResponseHeader)", "fasthttp.(*RequestHeader)", "fasthttp.(*header)", "fasthttp.removeNewLines", "fasthttp.normalizeHeaderKey", "fasthttp.appendHeaderLine", "fasthttp.initHeaderValueBytes", "fasthttp.appendRequestCookieBytes"},
+		Runs: []Run{
+			{Pkg: "fasthttp", Func: "vhC05ResponseSetters", Quick: map[string]int{"nameLen": 2, "valLen": 2}, Thorough: map[string]int{"nameLen": 2, "valLen": 3}},
+			{Pkg: "fasthttp", Func: "vhC05RequestSetters", Quick: map[string]int{"nameLen": 2, "valLen": 2}, Thorough: map[string]int{"nameLen": 2, "valLen": 3}},
+		},
+		Assume: []string{
+			"one setter call with arbitrary bytes (name ≤ nameLen, value ≤ valLen) on a fresh header, serialised with Header(); setters covered: Set/Add/SetBytesKV (ordinary and special names), SetContentType, SetServer, SetStatusMessage, SetContentEncoding, SetMethod, SetRequestURI, SetHost, SetUserAgent, SetProtocol, SetReferer, SetCookie",
+			"trailer names, the proxy CONNECT target and Request/Response-level URI setters are outside this check; the default Date header is switched off (noDefaultDate)",
+		},
+	})
+	register(&Property{
+		ID:    "C06",
+		Units: []string{"fasthttp.(*RequestHeader).SetCookie", "fasthttp.(*RequestHeader).collectCookies", "fasthttp.parseRequestCookies", "fasthttp.appendRequestCookieBytes", "fasthttp.(*cookieScanner)", "fasthttp.decodeCookieArg", "fasthttp.validCookieValue", "fasthttp.(*RequestHeader).peek"},
+		Runs: []Run{
+			{Pkg: "fasthttp", Func: "vhC06RequestCookies", Quick: map[string]int{"cookies": 2, "keyLen": 1, "valLen": 2}, Thorough: map[string]int{"cookies": 2, "keyLen": 2, "valLen": 2}},
+		},
+		Assume: []string{
+			"request-cookie half only: up to `cookies` SetCookie calls with arbitrary key/value bytes; the server side is a second RequestHeader given the serialised Cookie value; response Set-Cookie attribute round trips (time formatting) are outside this check",
+		},
+	})
+	register(&Property{
+		ID:    "C08",
+		Units: []string{"fasthttp.(*Args).ParseBytes", "fasthttp.(*Cookie).ParseBytes", "fasthttp.(*URI).Parse", "fasthttp.(*URI).parse", "fasthttp.ParseByteRange", "fasthttp.(*RequestHeader).Read", "fasthttp.(*ResponseHeader).Read", "fasthttp.VisitHeaderParams", "fasthttp.(*headerScanner)", "fasthttp.parseRequestCookies", "fasthttp.(*RequestHeader).parse", "fasthttp.(*ResponseHeader).parse"},
+		Runs: []Run{
+			{Pkg: "fasthttp", Func: "vhC08SmallBuffers", Quick: map[string]int{"bufLen": 3}, Thorough: map[string]int{"bufLen": 5}},
+			{Pkg: "fasthttp", Func: "vhC08RequestHeadNoOverRead", Quick: map[string]int{"holeLen": 2, "contLen": 2}, Thorough: map[string]int{"holeLen": 3, "contLen": 2}},
+		},
+		Assume: []string{
+			"no-panic/termination: the engine turns any panic, out-of-range index/slice, nil dereference or step-budget overrun on any explored path into a violation; inputs are fully symbolic buffers of length ≤ bufLen, plus the templated request heads of vhC08RequestHeadNoOverRead for the no-over-read clause",
+			"bodies, trailers, multipart forms, body limits, read-chunk splits and buffers beyond the stated lengths are outside this check",
+		},
+	})
+	register(&Property{
+		ID:    "C09",
+		Units: []string{"fasthttp.(*RequestHeader).Read", "fasthttp.(*RequestHeader).readLoop", "fasthttp.(*RequestHeader).tryRead", "fasthttp.(*RequestHeader).parse", "fasthttp.readRawHeaders", "fasthttp.(*headerScanner)", "fasthttp.nextLine", "bufio.(*Reader)"},
+		Runs: []Run{
+			{Pkg: "fasthttp", Func: "vhC09RequestHead", Quick: map[string]int{"holeLen": 2, "contLen": 2}, Thorough: map[string]int{"holeLen": 3, "contLen": 2}},
+		},
+		Assume: []string{
+			"request heads only: five templates with a symbolic hole of ≤ holeLen bytes (header name, header value, Content-Length value, request target, line break position) × four blank-line spellings (CRLF CRLF, LF LF, LF CRLF, CRLF LF) × two arbitrary continuations of ≤ contLen bytes; response heads are outside this check",
+		},
 	})
 }
